@@ -11,6 +11,34 @@ import sys
 from .core import run_check
 
 
+def self_validate(chk, repo, pid):
+    """Thorough tier: the property's slice of the self-validation corpus (single-edit variants of the
+    CURRENT tree, evaluated in memory).  A miss or a false alarm means the CHECKER is wrong: exit 2."""
+    from .core import AnalysisError
+    from .mutants import run_corpus
+
+    if [o for o in chk.obligations if not o.ok]:
+        chk.note("self_validation", "skipped: the tree itself has violations")
+        return
+    res = run_corpus(pid, repo.root)
+    chk.extra["self_validation"] = {
+        "breaking_variants_reported": len(res["caught"]),
+        "benign_twins_silent": len(res["silent_ok"]),
+        "missed": res["missed"], "false_alarms": [n for n, _ in res["false_alarm"]],
+        "stale_entries": res["stale"], "errors": res["error"],
+        "reported_by": {n: r for n, r in res["caught"]},
+    }
+    for name, rules in res["caught"]:
+        chk.ob("SELFTEST-breaking", "corpus", name, True, "reported by " + ",".join(rules))
+    for name in res["silent_ok"]:
+        chk.ob("SELFTEST-benign", "corpus", name, True, "silent")
+    bad = res["missed"] or res["false_alarm"] or res["error"]
+    if bad:
+        raise AnalysisError(
+            f"self-validation corpus: missed={res['missed']} false_alarms={[n for n, _ in res['false_alarm']]} "
+            f"errors={res['error']} (the checker, not the tree, needs attention)")
+
+
 def main(argv=None) -> int:
     ap = argparse.ArgumentParser(prog="run")
     ap.add_argument("property")
@@ -38,8 +66,10 @@ def main(argv=None) -> int:
 
     def body(chk, repo):
         mod.check(chk, repo)
-        if args.tier == "thorough" and hasattr(mod, "thorough"):
-            mod.thorough(chk, repo)
+        if args.tier == "thorough":
+            if hasattr(mod, "thorough"):
+                mod.thorough(chk, repo)
+            self_validate(chk, repo, pid)
 
     return run_check(pid, body, args.tier, seed, level)
 
